@@ -25,7 +25,7 @@ def scratch():
 
 
 def drive(src, outdir, top, boost, ign, hashseed, cwd, lc):
-    env = dict(os.environ, PYTHONHASHSEED=str(hashseed), PYTHONPATH='/repo')
+    env = dict(os.environ, PYTHONHASHSEED=str(hashseed), PYTHONPATH=common.REPO, VERIF_REPO=common.REPO)
     if lc:
         env['LC_ALL'] = lc
         env['LANG'] = lc
@@ -154,8 +154,8 @@ def parallel_experiment(rep, seed, nproc):
             if fresh[0] != 'ok':
                 continue
             expect['out%d.cpp' % i] = fresh[1]
-            env = dict(os.environ, PYTHONPATH='/repo')
-            procs.append(subprocess.Popen(['/venv/bin/python', '/repo/scripts/pybind_wrap.py', '--src', src,
+            env = dict(os.environ, PYTHONPATH=common.REPO)
+            procs.append(subprocess.Popen(['/venv/bin/python', common.REPO + '/scripts/pybind_wrap.py', '--src', src,
                                            '--module_name', 'mod%d' % i, '--out', os.path.join(d, 'out%d.cpp' % i),
                                            '--template', tpl, '--ignore', 'no::Such'],
                                           cwd=d, env=env, stdout=subprocess.DEVNULL, stderr=subprocess.DEVNULL))
